@@ -120,9 +120,14 @@ fn serve_sdo(d: &mut Device, req: &[u8], cnt: u8) -> Option<Vec<u8>> {
             let mbx = d.read_mailbox_len();
             let fits_normal = 16 + data.len() <= mbx;
 
+            // The upload policy applies to application objects; communication objects (< 0x2000,
+            // e.g. PDO assignment / mapping) are served the way devices do: expedited when <= 4 bytes
+            let policy_applies = index >= 0x2000;
+            let small = !data.is_empty() && data.len() <= 4;
+
             let segmented_sizes = match &d.spec.upload {
-                UploadPolicy::Segmented(s) if !s.is_empty() && data.len() > 0 && mbx >= 16 => Some(s.clone()),
-                _ if !fits_normal => Some(vec![(mbx.saturating_sub(9)) as u16]),
+                UploadPolicy::Segmented(s) if policy_applies && !s.is_empty() && !data.is_empty() && mbx >= 16 => Some(s.clone()),
+                _ if !fits_normal && !small => Some(vec![(mbx.saturating_sub(9)) as u16]),
                 _ => None,
             };
 
@@ -141,7 +146,7 @@ fn serve_sdo(d: &mut Device, req: &[u8], cnt: u8) -> Option<Vec<u8>> {
                 return Some(r);
             }
 
-            let expedited = data.len() <= 4 && !(d.spec.upload == UploadPolicy::PreferNormal && fits_normal) && !data.is_empty();
+            let expedited = small && !(policy_applies && d.spec.upload == UploadPolicy::PreferNormal && fits_normal);
 
             if expedited || (data.is_empty() && !fits_normal) {
                 let mut r = mbx_header(10, cnt);
